@@ -213,7 +213,7 @@ impl Check for C12 {
         "C12"
     }
     fn plan(&self, tier: Tier) -> Plan {
-        let mut p = Plan::new(tier.pick(1500, 50_000), tier.pick(30.0, 480.0));
+        let mut p = Plan::new(tier.pick(6_000, 600_000), tier.pick(30.0, 420.0));
         p.mandatory = 2;
         p
     }
